@@ -141,3 +141,21 @@ def fail(inputs, why, obs=()):
 
 class HarnessStop(BaseException):
     """control exception of the harness (the code under test catches Exception broadly)"""
+
+
+class _Null:
+    def __enter__(self):
+        return self
+
+    def __exit__(self, *a):
+        return False
+
+
+def untraced():
+    """context manager: run a fully concrete stretch of an obligation natively (no CrossHair tracing).  Only sound when
+    nothing inside depends on a symbolic value - e.g. after every symbolic input has been concretised (each concretisation
+    is a recorded branch of the path)."""
+    if not SYMBOLIC:
+        return _Null()
+    from crosshair.tracers import NoTracing
+    return NoTracing()
